@@ -311,11 +311,11 @@ func checkC15(c *Ctx) {
 	// behaviours
 	rng := rand.New(rand.NewSource(c.Seed))
 	var inputs [][]int
-	inputs = append(inputs, synInputs(rng, cs.G, c.pick(3, 4), c.pick(600, 6000), c.pick(150, 1500), false)...)
+	inputs = append(inputs, synInputs(rng, cs.G, c.pick(3, 4), c.pick(600, 40000), c.pick(150, 6000), false)...)
 	// token streams of the repository's own grammars, and single-token mutations of them
 	for _, ts := range c.repoGrammarTokenStreams(cs) {
 		inputs = append(inputs, ts)
-		for k := 0; k < c.pick(6, 40) && len(ts) > 0; k++ {
+		for k := 0; k < c.pick(6, 150) && len(ts) > 0; k++ {
 			m := append([]int{}, ts...)
 			j := rng.Intn(len(m))
 			switch rng.Intn(3) {
